@@ -1,6 +1,7 @@
 (* C18 — mechanism model of metrique/src/timers.rs: Stopwatch, its guards, Timer.
    Durations and instants are nanosecond counts in N (the manually advanced time source). *)
-From Coq Require Import List NArith Bool.
+From Coq Require Import List NArith ZArith Bool.
+From MV Require Import Common.F64.
 Import ListNotations.
 Local Open Scope N_scope.
 
@@ -109,3 +110,15 @@ Fixpoint tobserve (t : timer) (ops : list top) : list N :=
   | [] => []
   | o :: r => let t' := tstep t o in timer_close t' :: tobserve t' r
   end.
+
+(* ---- Timestamps ----
+   The injected wall clock is a signed nanosecond count relative to the epoch.  `Timestamp` samples it at creation,
+   `TimestampOnClose` at close; both close to `duration_since(UNIX_EPOCH).unwrap_or_default()`. *)
+Definition since_epoch (wall : Z) : N := if (wall <? 0)%Z then 0 else Z.to_N wall.
+(* mode: false = Timestamp (at creation), true = TimestampOnClose *)
+Definition ts_value (on_close : bool) (wall_at_creation wall_at_close : Z) : N :=
+  since_epoch (if on_close then wall_at_close else wall_at_creation).
+(* the three epoch formats: integer microseconds; seconds and milliseconds as binary64 values *)
+Definition ts_micros (d : N) : N := d / 1000.
+Definition ts_secs_bits (d : N) : N := f64_secs_bits d.
+Definition ts_millis_bits (d : N) : N := f64_millis_bits d.
